@@ -301,6 +301,10 @@ func onResourceRuleUpdate(res string, rawResRules []*Rule) (err error) {
 			logging.Warn("[CircuitBreaker onResourceRuleUpdate] Ignoring invalid circuitBreaker rule", "rule", rule, "reason", err.Error())
 			continue
 		}
+		if res != rule.Resource {
+			logging.Error(errors.Errorf("unmatched resource name expect: %s, actual: %s", res, rule.Resource), "Unmatched resource name in circuitBreaker.onResourceRuleUpdate()", "rule", rule)
+			continue
+		}
 		validResRules = append(validResRules, rule)
 	}
 
